@@ -198,7 +198,17 @@ pub fn object_heavy(base: &Config, salt: u64) -> Config {
     let mut rng = Rng::new(salt);
     let steps = 10 + rng.below(50) as usize;
     // recipes: operand set-ups followed by the typed opcode that consumes them
-    const RECIPES: [&[&str]; 38] = [
+    const RECIPES: [&[&str]; 46] = [
+        // containers that hold a float (NaN with saturated entropy) and are then stored into themselves
+        &["MARK", "BINFLOAT", "LIST", "DUP", "APPEND"],
+        &["MARK", "FLOAT", "LIST", "DUP", "TUPLE1", "APPEND"],
+        &["MARK", "NONE", "BINFLOAT", "DICT", "DUP", "NONE", "SETITEM"],
+        &["EMPTY_LIST", "BINFLOAT", "APPEND", "DUP", "APPEND"],
+        // two MARKs directly on top of each other above a container
+        &["EMPTY_SET", "MARK", "MARK", "NONE", "ADDITEMS"],
+        &["EMPTY_LIST", "MARK", "MARK", "NONE", "APPENDS"],
+        &["EMPTY_DICT", "MARK", "MARK", "NONE", "NONE", "SETITEMS"],
+        &["EMPTY_SET", "MARK", "NONE", "MARK", "NONE", "ADDITEMS", "ADDITEMS"],
         // what sits on the stack after BUILD must still be the object, not its state
         &["GLOBAL", "EMPTY_TUPLE", "REDUCE", "EMPTY_DICT", "BUILD", "NONE", "NONE", "SETITEM"],
         &["GLOBAL", "GLOBAL", "EMPTY_TUPLE", "REDUCE", "EMPTY_TUPLE", "BUILD", "REDUCE"],
@@ -243,7 +253,9 @@ pub fn object_heavy(base: &Config, salt: u64) -> Config {
         &["EMPTY_DICT", "PUT", "GET", "NONE", "NONE", "SETITEM"],
     ];
     let mut queue: Vec<u8> = Vec::new();
-    steer(base, steps, 2, salt, |_d, p| {
+    // a third of the cases draw their arguments from saturated (all-0xFF) entropy: NaN floats, -1 ints
+    let filler_kind = if salt % 3 == 0 { 1 } else { 2 };
+    steer(base, steps, filler_kind, salt, |_d, p| {
         let pos = |c: u8| p.valid.iter().position(|v| *v == c);
         loop {
             if let Some(&want) = queue.first() {
@@ -929,6 +941,90 @@ pub fn c12(thorough: bool, seed: u64) -> CheckOutput {
         },
     );
     let mut acc = cov.acc.unwrap();
+    // the opt-in opcodes must also be reachable through the command line, one flag at a time
+    if std::env::var("PFV_CLI").is_ok() {
+        let samples = if thorough { 1500 } else { 300 };
+        let mut jobs: Vec<(u8, bool, bool)> = Vec::new(); // proto, ext flag, buf flag
+        for p in 2..6u8 {
+            jobs.push((p, true, false));
+        }
+        jobs.push((5, false, true));
+        jobs.push((5, true, true));
+        let jobs_ref = &jobs;
+        let fe = par_run(
+            jobs.len() * 2,
+            Acc::new,
+            |i, a| {
+                let (proto, e, b) = jobs_ref[i / 2];
+                let batch = i % 2 == 0;
+                let mut flags: Vec<String> = vec!["--protocol".into(), proto.to_string()];
+                if e {
+                    flags.push("--allow-ext".into());
+                }
+                if b {
+                    flags.push("--allow-buffer".into());
+                }
+                let files = if batch {
+                    cli_batch(&flags, samples, &[])
+                } else {
+                    // single-file mode, one process per seed
+                    let cli = std::env::var("PFV_CLI").unwrap();
+                    let d = std::env::temp_dir().join(format!("pfv-c12-{}-{}", std::process::id(), i));
+                    let _ = std::fs::create_dir_all(&d);
+                    let mut v = Vec::new();
+                    for s in 0..(samples / 6) as u64 {
+                        let f = d.join("one.pkl");
+                        let ok = std::process::Command::new(&cli).args(&flags).arg("--seed").arg((s * 6 + proto as u64).to_string()).arg("--").arg(&f).output();
+                        if matches!(ok, Ok(o) if o.status.success()) {
+                            v.push(std::fs::read(&f).unwrap_or_default());
+                        }
+                    }
+                    let _ = std::fs::remove_dir_all(&d);
+                    Ok(v)
+                };
+                match files {
+                    Err(m) => a.inconclusive.push(format!("CLI run failed in the C12 front-end layer: {}", m)),
+                    Ok(files) => {
+                        let mut seen: BTreeSet<&'static str> = BTreeSet::new();
+                        for bytes in &files {
+                            a.evaluations += 1;
+                            for ins in crate::lexer::lex_lenient(bytes) {
+                                seen.insert(ins.op.name);
+                            }
+                        }
+                        a.count("cli_files_scanned", files.len() as u64);
+                        let mut want: Vec<&'static str> = vec![];
+                        if e {
+                            want.extend(["EXT1", "EXT2", "EXT4"]);
+                        }
+                        if b {
+                            want.extend(["NEXT_BUFFER", "READONLY_BUFFER"]);
+                        }
+                        for w in want {
+                            if !seen.contains(w) {
+                                let mode = if batch { "batch mode" } else { "single-file mode" };
+                                let msg = format!(
+                                    "opcode {} never occurs in {} outputs of the CLI ({}) with {}",
+                                    w,
+                                    files.len(),
+                                    mode,
+                                    flags.join(" ")
+                                );
+                                a.violate(Violation {
+                                    property: "C12".into(),
+                                    signature: format!("C12:cli_dead:{}:P{}:{}", w, proto, if batch { "batch" } else { "single" }),
+                                    message: msg.clone(),
+                                    replay: json!({"kind": "c12-cli", "property": "C12", "flags": flags, "mode": mode, "opcode": w, "message": msg}),
+                                });
+                            }
+                        }
+                    }
+                }
+            },
+            |a, b| a.merge(b),
+        );
+        acc.merge(fe);
+    }
     let optin = ["EXT1", "EXT2", "EXT4", "NEXT_BUFFER", "READONLY_BUFFER"];
     let mut witnesses = serde_json::Map::new();
     let mut rarest: Option<(u64, String)> = None;
